@@ -21,4 +21,8 @@ EXTRAS = [
     lambda rep, fb, tier: pyrules.rule_py_categories(rep),
     lambda rep, fb, tier: __import__("vf.rules.methodrules", fromlist=["x"]).rule_broadcast_validated(rep, fb),
     lambda rep, fb, tier: __import__("vf.rules.origin", fromlist=["x"]).rule_merge_regular(rep, fb),
+    lambda rep, fb, tier: pyrules.rule_py_unreachable(rep),
+    lambda rep, fb, tier: pyrules.rule_py_callback_layout(rep),
+    lambda rep, fb, tier: __import__("vf.rules.pybind", fromlist=["x"]).rule_py_bindings(rep),
+    lambda rep, fb, tier: pyrules.rule_py_call_signature(rep),
 ]
